@@ -15,3 +15,72 @@ check("C01", "model_checking",
       "reproduction of asyncio's ready-batch discipline, CPython 3.12. Machines larger than the family bound are not covered.",
       "explicit-state BFS to closure over generated machine family, invariant check on implementation states",
       "E1-explicit-state + VLoop", "DESIGN.md section 4 C01")
+
+ENGINES[0]["serves_properties"] = ["C01", "C02", "C03", "C05", "C10", "C11"]
+ENGINES[1]["serves_properties"] = ["C01", "C02", "C03", "C05", "C06", "C10", "C11", "C20"]
+ENGINES.append(dict(name="finite-language-enumerator", path="/verif/mc/props", serves_properties=["C06", "C20", "C02"],
+                    kind_free_text="complete enumeration of a bounded input language (guard formulas, descriptor key sets, guard valuations), each input run through the real send() on both engines and compared with a reference evaluator"))
+
+TRUST = ("Trusted: Recorder stubs as the only user code, canonical-state abstraction, VLoop's reproduction of asyncio's ready-batch "
+         "discipline, CPython 3.12; inputs outside the stated family bounds are not covered.")
+
+check("C02", "model_checking",
+      "Every guard valuation in {true,false,raise}^n of every SEL machine (ancestor chains, parallel regions with shared-ancestor and "
+      "leaving handlers) in several configurations, and every (reachable state, event) pair of the TREE universal machines incl. unhandled "
+      "events, is executed on both engines and compared with a reference nominator written from the statement; can() is compared too.",
+      TRUST, "exhaustive enumeration of machine shapes x guard valuations x configurations + explicit-state BFS, reference-model comparison",
+      "finite-language-enumerator + E1-explicit-state", "DESIGN.md section 4 C02")
+check("C03", "model_checking",
+      "Every transition executed anywhere in the BFS closure of the TREE universal machines and FOLLOW machines, on both interpreters, is "
+      "judged by trace predicates: reference activity tracker (exactly-once accounting, never entered while active), exit<transition<entry, "
+      "ancestor/descendant order, event identity on every marker, LCA frame condition.",
+      TRUST, "explicit-state BFS to closure, trace-predicate oracle on every implementation step", "E1-explicit-state + VLoop",
+      "DESIGN.md section 4 C03")
+check("C05", "model_checking",
+      "Differential model checking: BFS closure on the sync engine; every step is replayed on the async engine and threaded through the pure "
+      "API and compared (configuration, context, status, output, ordered action trace with events); purity of the pure API is checked by "
+      "fingerprinting machine and input snapshot and by the Recorder seeing no user action.",
+      TRUST, "explicit-state BFS with differential (three-implementation) oracle", "E1-explicit-state + VLoop", "DESIGN.md section 4 C05")
+check("C06", "model_checking",
+      "The finite language of guard formulas up to the depth bound (and/or/not over named, parameterised, stateIn, raising, missing atoms; all "
+      "operand spellings; guard and cond; six positions incl. choose and enqueueActions.check) is enumerated completely through the real "
+      "send() on both engines against two-valued evaluation.",
+      TRUST, "complete enumeration of a bounded formula language against a reference evaluator", "finite-language-enumerator",
+      "DESIGN.md section 4 C06")
+check("C10", "model_checking",
+      "BFS closure over every TREE tree with a final state, decorated with onDone handlers/outputs, on both engines; a reference counter "
+      "derives from each final-state entry in the log which done.state events are due (strict XState isInFinalState) and compares count and "
+      "data; top-level completion, output precedence and silence after done are checked in every reached state.",
+      TRUST + " One recorded known finding (recursive done-ness) is filtered by signature.",
+      "explicit-state BFS to closure with reference-counter oracle", "E1-explicit-state + VLoop", "DESIGN.md section 4 C10")
+check("C11", "model_checking",
+      "BFS closure over every TREE tree with a history node (with/without default target) on both engines; a reference memory maintained from "
+      "exit markers predicts the configuration restored by each history transition taken while the parent is inactive, entry-once is checked, "
+      "and a snapshot-restored twin must agree.",
+      TRUST, "explicit-state BFS to closure with reference history memory + snapshot twin", "E1-explicit-state + VLoop",
+      "DESIGN.md section 4 C11")
+check("C20", "model_checking",
+      "All descriptor key sets up to the size bound over a 21-key universe (plus internal-name keys), on a leaf and on (leaf,parent) pairs, with "
+      "false-guard and null variants, x 18 event types, through the real send() on both engines against a reference matcher.",
+      TRUST, "complete enumeration of bounded descriptor key sets against a reference matcher", "finite-language-enumerator",
+      "DESIGN.md section 4 C20")
+
+ENGINES[0]["serves_properties"] += ["C16"]
+ENGINES.append(dict(name="E5-hash-order-permuter", path="/verif/mc/props/c16.py", serves_properties=["C16"],
+                    kind_free_text="StateNode.__hash__ replaced by a rank table; all rank permutations enumerate every iteration order of every set of state nodes"))
+ENGINES.append(dict(name="E3-thread-scheduler", path="/verif/mc/threads.py", serves_properties=["C08", "C09", "C14", "C15", "C04"],
+                    kind_free_text="sync_interpreter.threading/time replaced by shims; library threads run as baton-passing virtual threads whose every step is chosen by the driver"))
+
+check("C13", "model_checking",
+      "Finite LOOP family: every (cycle kind, maxIterations, natural length below/at/above the bound/infinite, trigger, engine) case and every "
+      "external burst case is executed under an action budget and judged: returns, natural end for short chains, ERROR log + legal "
+      "configuration + responsiveness after a cut, nothing external discarded.",
+      TRUST + " Termination is budget-based (Budget raised as KeyboardInterrupt subclass, loop-iteration horizon, SIGALRM backstop). One recorded known finding.",
+      "exhaustive enumeration of a finite family of feedback-cycle machines under execution budgets", "finite-language-enumerator + VLoop",
+      "DESIGN.md section 4 C13")
+check("C16", "model_checking",
+      "For every TREE machine with a parallel state or history node, every transition of the BFS closure is re-executed under every rank "
+      "permutation of the state-node hash order (all iteration orders any heap layout could produce) on a rebuilt machine, and the complete "
+      "trace must be byte-identical.",
+      TRUST + " CPython set iteration = ascending hash for collision-free small tables; string-set order only sampled via PYTHONHASHSEED.",
+      "explicit-state BFS x exhaustive hash-order permutation", "E1-explicit-state + E5-hash-order-permuter", "DESIGN.md section 4 C16")
